@@ -16,8 +16,6 @@ open HickoryVerif HickoryVerif.Name HickoryVerif.Nsec HickoryVerif.Spec HickoryV
 /-- key of a name (`Spec.canonKey`) -/
 abbrev K (n : Name) : Key := canonKey n
 
-theorem nkey_eq (n : Name) : nkey n = K n := rfl
-
 /-! ### comparisons -/
 
 theorem cmp_key {a b : Name} (ha : a.fqdn = true) (hb : b.fqdn = true) :
@@ -166,18 +164,10 @@ theorem key_tail_prefix (l : Bytes) (ls : List Bytes) (f : Bool) :
     K ⟨ls, true⟩ <+: K ⟨l :: ls, f⟩ := by
   rw [key_cons]; exact List.prefix_append _ _
 
-theorem length_tail_le_numLabels (l : Bytes) (ls : List Bytes) (f : Bool) :
-    ls.length ≤ (⟨l :: ls, f⟩ : Name).numLabels := by
-  rw [numLabels_eq]
-  have := length_le_rfcLabels_succ (K ⟨l :: ls, f⟩)
-  rw [key_length] at this
-  simp only [List.length_cons] at this
-  omega
-
 /-- what the loop returns is an ancestor-or-self of the seed and of the query name -/
 theorem searchEncloser_sound {q : Name} {k : Nat} {S : List Bytes} {f : Bool} {c : Name}
     (h : searchEncloser q k S f = some c) :
-    K c <+: K q ∧ K c <+: K ⟨S, f⟩ ∧ k < rfcLabels (K c) ∧ (f = true → c.fqdn = true) := by
+    K c <+: K q ∧ K c <+: K ⟨S, f⟩ ∧ k < (K c).length ∧ (f = true → c.fqdn = true) := by
   induction S generalizing f with
   | nil => simp [searchEncloser] at h
   | cons l ls ih =>
@@ -188,24 +178,24 @@ theorem searchEncloser_sound {q : Name} {k : Nat} {S : List Bytes} {f : Bool} {c
       · rename_i hz
         simp only [Option.some.injEq] at h
         subst h
-        exact ⟨(zoneOf_iff _ _).1 hz, List.prefix_refl _, by rw [← numLabels_eq]; exact hk,
+        exact ⟨(zoneOf_iff _ _).1 hz, List.prefix_refl _, by rw [key_length]; exact hk,
           fun hf => hf⟩
       · obtain ⟨h1, h2, h3, h4⟩ := ih h
         exact ⟨h1, List.IsPrefix.trans h2 (key_tail_prefix l ls f), h3, fun _ => h4 rfl⟩
     · cases h
 
-/-- and it does not miss a longer common ancestor — unless `num_labels()` stops the loop -/
+/-- and it does not miss a longer common ancestor -/
 theorem searchEncloser_complete (q : Name) (k : Nat) (S : List Bytes) (f : Bool) (p : Key)
     (hpS : p <+: K ⟨S, f⟩) (hpq : p <+: K q) :
-    (∃ c, searchEncloser q k S f = some c ∧ p.length ≤ (K c).length) ∨ rfcLabels p ≤ k := by
+    (∃ c, searchEncloser q k S f = some c ∧ p.length ≤ (K c).length) ∨ p.length ≤ k := by
   induction S generalizing f with
   | nil =>
     have : p = [] := by simpa [K, canonKey] using hpS
     subst this
-    right; simp [rfcLabels]
+    right; simp
   | cons l ls ih =>
     simp only [searchEncloser]
-    by_cases hk : (⟨l :: ls, f⟩ : Name).numLabels > k
+    by_cases hk : (l :: ls).length > k
     · rw [if_pos hk]
       by_cases hz : (⟨l :: ls, f⟩ : Name).zoneOf q = true
       · rw [if_pos hz]
@@ -221,127 +211,101 @@ theorem searchEncloser_complete (q : Name) (k : Nat) (S : List Bytes) (f : Bool)
         exact ih true this
     · rw [if_neg hk]
       right
-      have hk' : (⟨l :: ls, f⟩ : Name).numLabels ≤ k := Nat.le_of_not_gt hk
-      by_cases hpe : p = K ⟨l :: ls, f⟩
-      · rw [hpe, ← numLabels_eq]; exact hk'
-      · rw [key_cons] at hpS hpe
+      have h1 := List.IsPrefix.length_le hpS
+      rw [key_length] at h1
+      simp only at h1
+      omega
+
+/-- the loop of `closer_encloser_exists`: if it finds nothing, no common ancestor of the seed
+and the query name has more than `k` labels -/
+theorem closerLoop_false (q : Name) (k : Nat) (S : List Bytes) (f : Bool)
+    (h : closerLoop q k S f = false) (p : Key) (hpS : p <+: K ⟨S, f⟩) (hpq : p <+: K q) :
+    p.length ≤ k := by
+  induction S generalizing f with
+  | nil =>
+    have : p = [] := by simpa [K, canonKey] using hpS
+    subst this; simp
+  | cons l ls ih =>
+    simp only [closerLoop] at h
+    by_cases hk : (l :: ls).length > k
+    · rw [if_pos hk] at h
+      by_cases hz : (⟨l :: ls, f⟩ : Name).zoneOf q = true
+      · rw [if_pos hz] at h; cases h
+      · rw [if_neg hz] at h
+        have hne : p ≠ K ⟨l :: ls, f⟩ := by
+          rintro rfl; exact hz ((zoneOf_iff _ _).2 hpq)
+        rw [key_cons] at hpS hne
         have : p <+: K ⟨ls, true⟩ := by
           rcases List.prefix_concat_iff.1 hpS with h1 | h1
-          · exact absurd h1 hpe
+          · exact absurd h1 hne
           · exact h1
-        have h1 := List.IsPrefix.length_le this
-        rw [key_length] at h1
-        have h2 := length_tail_le_numLabels l ls f
-        have h3 := rfcLabels_le p
-        simp only at h1
-        omega
+        exact ih true h this
+    · have h1 := List.IsPrefix.length_le hpS
+      rw [key_length] at h1
+      simp only at h1
+      omega
 
 /-- One `for seed_name in …` iteration: properties of the updated `next_closest_encloser`. -/
 theorem encloserStep_spec {q nce seed : Name} (hq : K nce <+: K q) :
     let nce' := encloserStep q nce seed
     K nce' <+: K q ∧ (K nce).length ≤ (K nce').length ∧
-    (K nce' = K nce ∨ K nce' <+: K seed) ∧
     (nce.fqdn = true → seed.fqdn = true → nce'.fqdn = true) ∧
     (nce' = nce ∨ K nce' <+: K seed) ∧
-    ∀ p : Key, p <+: K seed → p <+: K q →
-      p.length ≤ (K nce').length ∨ rfcLabels p ≤ rfcLabels (K nce) := by
+    ∀ p : Key, p <+: K seed → p <+: K q → p.length ≤ (K nce').length := by
   intro nce'
-  have hdef : nce' = (searchEncloser q nce.numLabels seed.labels seed.fqdn).getD nce := rfl
-  cases hs : searchEncloser q nce.numLabels seed.labels seed.fqdn with
+  have hdef : nce' = (searchEncloser q nce.labels.length seed.labels seed.fqdn).getD nce := rfl
+  cases hs : searchEncloser q nce.labels.length seed.labels seed.fqdn with
   | none =>
     rw [hs] at hdef
     simp only [Option.getD_none] at hdef
     rw [hdef]
-    refine ⟨hq, Nat.le_refl _, Or.inl rfl, fun h _ => h, Or.inl rfl, ?_⟩
+    refine ⟨hq, Nat.le_refl _, fun h _ => h, Or.inl rfl, ?_⟩
     intro p hp1 hp2
-    rcases searchEncloser_complete q nce.numLabels seed.labels seed.fqdn p hp1 hp2 with
+    rcases searchEncloser_complete q nce.labels.length seed.labels seed.fqdn p hp1 hp2 with
       ⟨c, hc, _⟩ | h
     · rw [hs] at hc; cases hc
-    · right; rw [← numLabels_eq]; exact h
+    · rw [key_length]; exact h
   | some c =>
     rw [hs] at hdef
     simp only [Option.getD_some] at hdef
     rw [hdef]
     obtain ⟨h1, h2, h3, h4⟩ := searchEncloser_sound hs
-    have hlen : (K nce).length ≤ (K c).length := by
-      have a1 := rfcLabels_le (K c)
-      have a2 := length_le_rfcLabels_succ (K nce)
-      rw [numLabels_eq] at h3
-      omega
-    refine ⟨h1, hlen, Or.inr h2, fun _ hsf => h4 hsf, Or.inr h2, ?_⟩
+    have hlen : (K nce).length ≤ (K c).length := by rw [key_length]; omega
+    refine ⟨h1, hlen, fun _ hsf => h4 hsf, Or.inr h2, ?_⟩
     intro p hp1 hp2
-    rcases searchEncloser_complete q nce.numLabels seed.labels seed.fqdn p hp1 hp2 with
+    rcases searchEncloser_complete q nce.labels.length seed.labels seed.fqdn p hp1 hp2 with
       ⟨c', hc', hl⟩ | h
-    · rw [hs] at hc'; cases hc'; exact Or.inl hl
-    · right; rw [← numLabels_eq]; exact h
+    · rw [hs] at hc'; cases hc'; exact hl
+    · omega
 
-/-- two prefixes of one key, one element apart, the longer ending in `*` -/
-theorem eq_append_star {p c m : Key} (hp : p <+: m) (hc : c <+: m)
-    (hlen : p.length = c.length + 1) (hlast : p.getLast? = some Spec.STAR) :
-    p = c ++ [Spec.STAR] := by
-  have hcp : c <+: p := List.prefix_of_prefix_length_le hc hp (by omega)
-  obtain ⟨t, rfl⟩ := hcp
-  have ht : t.length = 1 := by simp at hlen; omega
-  match t, ht with
-  | [x], _ =>
-    simp at hlast
-    rw [hlast]
-
-/-- the starting value of `next_closest_encloser`: the SOA owner, else the query name's parent -/
-def startName (q : Name) (soa : Option Name) : Name :=
-  match soa with
-  | some s => s
-  | none => baseNameT q
-
-/-- The closest encloser the code computes (`Nsec.codeEncloser`): it is an ancestor-or-self of
-the query name, comes from the SOA / fallback or from the covering record, and no common
-ancestor of the query name with the covering record's owner or next name is longer — except
-`*.<encloser>` itself, which `num_labels()` does not see. -/
-theorem codeEncloser_spec {q : Name} {soa : Option Name} {cov : Nsec} {nce0 : Name}
-    (hn0 : nce0 = startName q soa)
-    (h0 : K nce0 <+: K q) :
-    let nce := codeEncloser q soa cov
+/-- The closest encloser `verify_nsec` computes from a starting name `nce0` above the query
+name: an ancestor-or-self of the query name that is the start or an ancestor-or-self of the
+covering record's owner or next name, and **no common ancestor of the query name with the
+owner or the next name is longer**. -/
+theorem encloser_spec {q nce0 : Name} {cov : Nsec} (h0 : K nce0 <+: K q) :
+    let nce := encloserStep q (encloserStep q nce0 cov.owner) cov.next
     K nce <+: K q ∧
     (K nce0).length ≤ (K nce).length ∧
     (nce = nce0 ∨ K nce <+: K cov.owner ∨ K nce <+: K cov.next) ∧
     (nce0.fqdn = true → cov.owner.fqdn = true → cov.next.fqdn = true → nce.fqdn = true) ∧
     ∀ p : Key, (p <+: K cov.owner ∨ p <+: K cov.next) → p <+: K q →
-      p.length ≤ (K nce).length ∨ p = K nce ++ [Spec.STAR] := by
+      p.length ≤ (K nce).length := by
   intro nce
-  have hdef : nce = encloserStep q (encloserStep q nce0 cov.owner) cov.next := by
-    show codeEncloser q soa cov = _
-    unfold codeEncloser; rw [hn0]; rfl
-  obtain ⟨a1, a2, _, a4, a5, a6⟩ := encloserStep_spec (seed := cov.owner) h0
-  obtain ⟨b1, b2, _, b4, b5, b6⟩ := encloserStep_spec (seed := cov.next) a1
-  rw [← hdef] at b1 b2 b4 b5 b6
+  obtain ⟨a1, a2, a4, a5, a6⟩ := encloserStep_spec (seed := cov.owner) h0
+  obtain ⟨b1, b2, b4, b5, b6⟩ := encloserStep_spec (seed := cov.next) a1
   refine ⟨b1, Nat.le_trans a2 b2, ?_, fun h1 h2 h3 => b4 (a4 h1 h2) h3, ?_⟩
   · rcases b5 with h | h
     · rcases a5 with h' | h'
-      · left; rw [h, h']
-      · right; left; rw [h]; exact h'
+      · left; show encloserStep q (encloserStep q nce0 cov.owner) cov.next = nce0
+        rw [h, h']
+      · right; left
+        show K (encloserStep q (encloserStep q nce0 cov.owner) cov.next) <+: _
+        rw [h]; exact h'
     · right; right; exact h
   · intro p hp hpq
-    -- in both cases: |p| ≤ |nce| or rfcLabels p ≤ |nce|
-    have key : p.length ≤ (K nce).length ∨ rfcLabels p ≤ (K nce).length := by
-      rcases hp with hp | hp
-      · rcases a6 p hp hpq with h | h
-        · left; omega
-        · right
-          have := rfcLabels_le (K nce0)
-          omega
-      · rcases b6 p hp hpq with h | h
-        · left; exact h
-        · right
-          have := rfcLabels_le (K (encloserStep q nce0 cov.owner))
-          omega
-    rcases key with h | h
-    · exact Or.inl h
-    · by_cases hl : p.length ≤ (K nce).length
-      · exact Or.inl hl
-      · right
-        have hlt : rfcLabels p < p.length := by omega
-        obtain ⟨hs, he⟩ := rfcLabels_lt_length hlt
-        exact eq_append_star hpq b1 (by omega) hs
+    rcases hp with hp | hp
+    · exact Nat.le_trans (a6 p hp hpq) b2
+    · exact b6 p hp hpq
 
 /-! ### `trim_to`, success of `prepend_label("*")`, `min_by_key`, common prefixes -/
 
@@ -470,15 +434,5 @@ where
         · simp only [Option.some.injEq] at h; subst h
           exact List.mem_cons_of_mem _ (ih2 z hm)
         · simp only [Option.some.injEq] at h; subst h; simp
-
-theorem length_le_lcpLen {p a b : Key} (ha : p <+: a) (hb : p <+: b) : p.length ≤ lcpLen a b := by
-  induction p generalizing a b with
-  | nil => simp
-  | cons x p ih =>
-    obtain ⟨a', rfl⟩ := ha
-    obtain ⟨b', rfl⟩ := hb
-    simp only [List.cons_append, lcpLen, if_true, List.length_cons]
-    have := ih (a := p ++ a') (b := p ++ b') (List.prefix_append _ _) (List.prefix_append _ _)
-    omega
 
 end HickoryVerif.C08
